@@ -157,6 +157,30 @@ def handlers (t : Tables) : List (String × Handler) := [
     pure (okJson (Json.mkObj [
       ("steps", Json.arr (outs.map (exceptToJson optNatToJson)).toArray),
       ("heap", Json.arr (h.map cellToJson).toArray)]))),
+  ("shallowHistory", fun j => do
+    -- objects on element tables: copy.copy / deepcopy / assignment / deletion; answer = what every object reads at the end
+    let d0 ← parseDS (← j.getObjVal? "ds")
+    let ops ← (← getArr j "ops").toList.mapM (fun o => do
+      match (← getStr o "op") with
+      | "shallow" => pure (SOp.shallow (← getNat o "o"))
+      | "deep" => pure (SOp.deep (← getNat o "o"))
+      | "set" => pure (SOp.set (← getNat o "o") (← getStr o "k") (← getStr o "v"))
+      | "del" => pure (SOp.del (← getNat o "o") (← getStr o "k"))
+      | _ => throw "shallow op unknown")
+    let s := srun { tables := [d0], objs := [0] } ops
+    pure (okJson (Json.arr ((List.range s.objs.length).map (fun o => match s.content o with
+      | some d => dsToJson d
+      | none => Json.null)).toArray))),
+  ("dictMutatedKey", fun j => do
+    -- d = {before: 1}; the key object is then mutated into `after`; look-ups by the listed objects
+    let before ← getObj j "before"
+    let after ← getObj j "after"
+    let probes ← (← getArr j "probes").toList.mapM parseObj
+    match pySet strCode (mappingOf t) ([] : PyDict Int) before 1 with
+    | .error e => pure (Json.mkObj [("err", Json.str e.toString)])
+    | .ok d =>
+      let d' := mutateKey d 0 after
+      pure (okJson (Json.arr (probes.map (fun p => exceptToJson optIntToJson (pyGet strCode (mappingOf t) d' p))).toArray))),
   ("fileRT", fun j => do
     pure (okJson (dsToJson (fileRoundTrip (← parseDS (← j.getObjVal? "ds")))))),
   ("fromDataset", fun j => do
